@@ -149,6 +149,56 @@ def h_rule(kind, spec, year, wallmode=False):
     return fn, types, zstubs
 
 
+# ------------------------------------------------------------------ malformed strings
+BAD_HAND = ["EST5EDT,M3.2.0,M11.1", "EST5EDT,M3.2.0,", "EST5EDT,M3.2.0/2,M11.1.0/", "EST5EDT,J60,J", "EST+", "EST5:", "EST5EDT,M3.2", "EST5EDT,M3",
+            "EST5EDT,M3.2.0", "EST5EDT,M3.2.0,M11.1.0,M12.1.0", "EST5EDT4,M3.2.0,M11.1.0,5", "E$T5EDT", "EST5EDT,M3.2.0;M11.1.0", "EST5EDT,X3.2.0,M11.1.0",
+            "EST5EDT,M3.2.0,M11.1.0/2:", "5", ",", "EST5EDT,,", "EST5 EDT,M3.2.0,M11.1.0", "EST5EDT,M3.2.0/,M11.1.0", "EST5EDT,M.2.0,M11.1.0", "EST5EDT,J,J300"]
+
+
+def h_malformed():
+    """Malformed TZ strings (hand-written: unknown characters, missing or surplus fields, dangling signs / colons) are
+    rejected with ValueError; every prefix and every one-character deletion of each well-formed spec either builds a zone
+    or raises ValueError - never another exception type.  Strings are pinned per path and run natively."""
+    from dateutil import tz
+    goods = [P.render(sp) for sp in specs("quick") if not sp.get("no_tzstr")]
+    types = dict(mode=int, si=int, pos=int)
+    maxlen = max(len(g) for g in goods)
+
+    def fn(ctx, mode, si, pos):
+        ctx.assume(S.within(mode, 0, 2))
+        mode = ctx.concrete(mode)
+        if mode == 0:
+            ctx.assume(S.within(si, 0, len(BAD_HAND) - 1))
+            ctx.assume(pos == 0)
+        else:
+            ctx.assume(S.within(si, 0, len(goods) - 1))
+            ctx.assume(S.within(pos, 0, maxlen - 1))
+        si, pos = ctx.concrete(si), ctx.concrete(pos)
+        if mode and pos >= len(goods[si]):
+            ctx.assume(False)
+        if ctx.symbolic:
+            return None
+        with ctx.untraced():
+            if mode == 0:
+                text = BAD_HAND[si]
+            elif mode == 1:
+                text = goods[si][:pos]
+            else:
+                text = goods[si][:pos] + goods[si][pos + 1:]
+            try:
+                z = tz.tzstr.instance(text)
+            except ValueError:
+                return None
+            except Exception as e:
+                ctx.fail("tzstr(%r) raised %s (%s); a malformed string must be rejected with ValueError" % (text, type(e).__name__, str(e)[:60]),
+                         key="malformed:%s" % type(e).__name__)
+            if mode == 0:
+                ctx.fail("malformed TZ string %r accepted" % (text,), key="malformed:accepted:%s" % text.replace(" ", "<sp>"))
+            ctx.check(z.utcoffset(datetime.datetime(2024, 1, 15)) is not None, "zone built from %r cannot report an offset" % (text,), key="malformed:half-built")
+        return None
+    return fn, types
+
+
 # ------------------------------------------------------------------ rule space
 def M_(m, w, d, t=None):
     return ("M", m, w, d, t)
@@ -190,7 +240,7 @@ def specs(tier):
 
 def cells(tier):
     q = tier == "quick"
-    cs = []
+    cs = [Cell("harness.c08", "h_malformed", {}, budget_s=150)]
     years = (2024,) if q else (2024, 2023, 2000, 1999, 2100, 2037)
     for si, spec in enumerate(specs(tier)):
         for kind in ("tzstr", "tzrange", "tzlocal"):
@@ -217,7 +267,7 @@ ASSUMPTIONS = [
     "datetimes are timestamp-backed stand-ins (engine/tsdt.py)",
     "tzrange cells are skipped for rules whose standard-time expression leaves the rule's day (not expressible as one relativedelta)",
 ]
-OUTSIDE = ["rejection of malformed TZ strings (the tokeniser splits text with a regex; symbolic text is out of reach)", "the deprecated comma format",
+OUTSIDE = ["malformed TZ strings beyond the hand-written list and the prefixes / one-character deletions of the well-formed specs (the tokeniser splits text with a regex; symbolic text is out of reach)", "the deprecated comma format",
            "rules closer than a month to each other or to the year boundary", "symbolic rule numbers (rule parameters are enumerated cells)"]
 
 
